@@ -149,6 +149,52 @@ theorem deal_secret (F : Perm) (fuel : Nat) (T : Option Strobe) (thr : Nat) (ht 
   simp only [List.map_cons, List.map_nil, List.flatten_cons, List.flatten_nil, List.append_nil]
   exact (fromRepr_some _ _ (key_chunk_canonical d.K hKl)).2.2
 
+/-- `recover` once the interpolated key is known: the outcome is decided by the MAC comparison -/
+theorem recover_of_key (F : Perm) (s0 : Share) (rest : List Share) (K M R : Bytes) (hKl : K.length = 16)
+    (hk : Sharks.recover s0.thr ((s0 :: rest).map (·.S)) = .ok (K ++ Bytes.zeros 8))
+    (hC : s0.C = (Strobe.sendEnc F (encKey F K) M).2)
+    (hD : s0.D = (Strobe.sendEnc F (Strobe.sendEnc F (encKey F K) M).1 R).2) :
+    recover F (s0 :: rest) =
+      if s0.J = (Strobe.sendMac F (macTranscript F none s0.thr M R) s0.J.length).2
+      then .ok ⟨s0.thr, M, R⟩ else .err "mac" := by
+  unfold recover
+  simp only
+  rw [hk]
+  simp only
+  have hlen : ¬ ((K ++ Bytes.zeros 8).length < Params.adssKeyLen) := by
+    simp [hKl, Bytes.zeros]; decide
+  rw [if_neg hlen]
+  have htake : (K ++ Bytes.zeros 8).take Params.adssKeyLen = K := by
+    rw [show Params.adssKeyLen = 16 from rfl, List.take_append_of_le_length (by omega)]
+    exact List.take_of_length_le (by omega)
+  rw [htake]
+  have hmir : Strobe.Mirror (encKey F K) (encKey F K) :=
+    Strobe.Mirror.refl_of_none _ (by unfold encKey; rw [Strobe.key_isReceiver, Strobe.new_isReceiver])
+  obtain ⟨hM, hmir2⟩ := Strobe.recvEnc_sendEnc F _ _ hmir M
+  obtain ⟨hR, _⟩ := Strobe.recvEnc_sendEnc F _ _ hmir2 R
+  rw [hC, hM, hD, hR]
+  have hmt : Strobe.Mirror (macTranscript F none s0.thr M R) (macTranscript F none s0.thr M R) :=
+    Strobe.Mirror.refl_of_none _ (by
+      unfold macTranscript
+      rw [Strobe.key_isReceiver, Strobe.ad_isReceiver, Strobe.ad_isReceiver]
+      exact Strobe.new_isReceiver F _)
+  have hiff := Strobe.recvMac_iff F _ _ hmt s0.J
+  unfold verify
+  simp only
+  by_cases hj : s0.J = (Strobe.sendMac F (macTranscript F none s0.thr M R) s0.J.length).2
+  · rw [if_pos (hiff.mpr hj), if_pos hj]
+  · have : ¬ (Strobe.recvMac F (macTranscript F none s0.thr M R) s0.J).2 = true := fun h => hj (hiff.mp h)
+    rw [if_neg this, if_neg hj]
+
+/-- the collection `xs ↦ share at x` of one dealing, with the fields of the FIRST share replaced
+(used for the tamper theorems): Shamir recovery only looks at the `S` components -/
+theorem sharks_recover_dealt (F : Perm) (fuel : Nat) (thr : Nat) (ht : 1 ≤ thr) (M R : Bytes) (d : Dealt)
+    (hd : deal F fuel none thr M R = some (.ok d))
+    (xs : List Nat) (hx : ∀ x ∈ xs, x < Fp.p) (hc : thr ≤ xs.toFinset.card) :
+    Sharks.recover thr (xs.map (evaluate d.polys)) = .ok (d.K ++ Bytes.zeros 8) := by
+  obtain ⟨hdealt, hsec⟩ := deal_secret F fuel none thr ht M R d hd
+  rw [recover_evaluate thr ht d.polys hdealt xs hx, if_pos hc, hsec]
+
 /-- **Honest recovery.** Any collection of shares of one sharing (default transcript) holding at
 least `thr ≥ 1` distinct points — in any order, with duplicates and surplus — recovers exactly
 `(thr, M, R)`. -/
@@ -157,46 +203,21 @@ theorem recover_honest (F : Perm) (fuel : Nat) (thr : Nat) (ht : 1 ≤ thr) (M R
     (xs : List Nat) (hx : ∀ x ∈ xs, x < Fp.p) (hc : thr ≤ xs.toFinset.card) :
     recover F (xs.map fun x => (⟨thr, evaluate d.polys x, d.C, d.D, d.J⟩ : Share)) = .ok ⟨thr, M, R⟩ := by
   obtain ⟨hJ, hK, hC, hD, _⟩ := deal_ok F fuel none thr M R d hd
-  obtain ⟨hdealt, hsec⟩ := deal_secret F fuel none thr ht M R d hd
   have hKl : d.K.length = 16 := by rw [hK]; exact keyOf_length F none thr M R
   cases hxs : xs with
   | nil => rw [hxs] at hc; simp at hc; omega
   | cons x0 xr =>
-    rw [← hxs]
-    have hmap : (xs.map fun x => (⟨thr, evaluate d.polys x, d.C, d.D, d.J⟩ : Share)) =
-        ⟨thr, evaluate d.polys x0, d.C, d.D, d.J⟩ ::
-          (xr.map fun x => (⟨thr, evaluate d.polys x, d.C, d.D, d.J⟩ : Share)) := by rw [hxs]; rfl
-    unfold recover
-    rw [hmap]
+    simp only [List.map_cons]
+    have hk : Sharks.recover thr (((⟨thr, evaluate d.polys x0, d.C, d.D, d.J⟩ : Share) ::
+        xr.map fun x => (⟨thr, evaluate d.polys x, d.C, d.D, d.J⟩ : Share)).map (·.S)) =
+        .ok (d.K ++ Bytes.zeros 8) := by
+      have := sharks_recover_dealt F fuel thr ht M R d hd xs hx hc
+      rw [hxs] at this
+      simpa [List.map_map, Function.comp_def] using this
+    rw [recover_of_key F _ _ d.K M R hKl hk hC hD]
     simp only
-    rw [← hmap, List.map_map]
-    have hS : ((fun s : Share => s.S) ∘ fun x => (⟨thr, evaluate d.polys x, d.C, d.D, d.J⟩ : Share)) =
-        evaluate d.polys := rfl
-    rw [hS, recover_evaluate thr ht d.polys hdealt xs hx, if_pos hc, hsec]
-    simp only
-    have hlen : ¬ ((d.K ++ Bytes.zeros 8).length < Params.adssKeyLen) := by
-      simp [hKl, Bytes.zeros]; decide
-    rw [if_neg hlen]
-    have htake : (d.K ++ Bytes.zeros 8).take Params.adssKeyLen = d.K := by
-      rw [show Params.adssKeyLen = 16 from rfl, List.take_append_of_le_length (by omega)]
-      exact List.take_of_length_le (by omega)
-    rw [htake]
-    have hmir : Strobe.Mirror (encKey F d.K) (encKey F d.K) :=
-      Strobe.Mirror.refl_of_none _ (by unfold encKey; rw [Strobe.key_isReceiver, Strobe.new_isReceiver])
-    obtain ⟨hM, hmir2⟩ := Strobe.recvEnc_sendEnc F _ _ hmir M
-    obtain ⟨hR, _⟩ := Strobe.recvEnc_sendEnc F _ _ hmir2 R
-    rw [hC, hM, hD, hR]
-    have hver : verify F ⟨thr, M, R⟩ d.J = true := by
-      unfold verify
-      have hmt : Strobe.Mirror (macTranscript F none thr M R) (macTranscript F none thr M R) :=
-        Strobe.Mirror.refl_of_none _ (by
-          unfold macTranscript
-          rw [Strobe.key_isReceiver, Strobe.ad_isReceiver, Strobe.ad_isReceiver]
-          exact Strobe.new_isReceiver F _)
-      rw [Strobe.recvMac_iff F _ _ hmt, hJ]
-      unfold macOf
-      rw [Strobe.sendMac_length]
-    rw [if_pos hver]
+    rw [if_pos]
+    rw [hJ]; unfold macOf; rw [Strobe.sendMac_length]
 
 /-- **Acceptance implies the MAC relation**, for ARBITRARY collections of shares: if `recover`
 returns a commune then its threshold is the first share's, and the first share's tag is exactly
